@@ -109,7 +109,9 @@ func (p *Pkg) Write() error {
 	files["decls.go"] = "package main\n\n" + dimp.String() + DeclSource(decls, 0)
 	callExt := map[int]bool{}
 	for _, t := range p.Types {
-		t.UsesExt(callExt)
+		if len(p.Calls) > 0 {
+			t.UsesExt(callExt)
+		}
 	}
 	var cimp strings.Builder
 	var cexts []int
@@ -220,3 +222,11 @@ func Batches(types []*Type, idx []int, size int) (bt [][]*Type, bi [][]int) {
 	}
 	return
 }
+
+var (
+	CallDC    = Call{Op: "dc", Wrap: func(idx int, tgo string) string {
+		return fmt.Sprintf("func dc_%d(dst, src %s) { deriveDeepCopy_%d(dst, src) }\n", idx, tgo, idx)
+	}, WrapFn: func(idx int) string { return fmt.Sprintf("dc_%d", idx) }}
+	CallClone = Simple("clone", "deriveClone", "a %T", "%T", "a")
+	CallGS    = Simple("gs", "deriveGoString", "a %T", "string", "a")
+)
